@@ -510,6 +510,12 @@ def store_pair(ctx: Ctx) -> None:
     if ok:
         lp = cfg.nodes[cfg.nodes[cfg.node_of(calls[0])].loops[-1]].stmt
         ok = isinstance(lp.iter, ast.Call) and unparse(lp.iter.func) == "zip" and len(lp.iter.args) == 3
+    elif len(calls) == 1:
+        # one call per triple in a comprehension over zip(sources, targets, regions)
+        for comp_ in [x for x in st.own_nodes() if isinstance(x, (ast.GeneratorExp, ast.ListComp))]:
+            if any(c_ is calls[0] for c_ in ast.walk(comp_.elt)) and len(comp_.generators) == 1 and not comp_.generators[0].ifs:
+                it_ = comp_.generators[0].iter
+                ok = isinstance(it_, ast.Call) and unparse(it_.func) == "zip" and len(it_.args) == 3
     ctx.ob(st, calls[0] if calls else None, ok, "store calls _store_array once per zipped (source, target, region) triple", sel="pair:loop")
     f = repo.get(f"{A.OPS}._store_array")
     fcfg, fl = cfg_of(f), flow_of(repo, f)
@@ -586,7 +592,12 @@ def store_guard(ctx: Ctx) -> None:
 
     # the (source, target, region) triples come from zip(<sources>, <targets>, <regions>)
     lp = cfg.nodes[cfg.nodes[cfg.node_of(sa_calls[0])].loops[-1]].stmt if cfg.nodes[cfg.node_of(sa_calls[0])].loops else None
-    zargs_ = [a.id for a in lp.iter.args if isinstance(a, ast.Name)] if lp is not None and isinstance(lp.iter, ast.Call) and unparse(lp.iter.func) == "zip" else []
+    zip_call = lp.iter if lp is not None else None
+    if zip_call is None:
+        for comp_ in [x for x in st.own_nodes() if isinstance(x, (ast.GeneratorExp, ast.ListComp))]:
+            if any(c_ is sa_calls[0] for c_ in ast.walk(comp_.elt)) and len(comp_.generators) == 1:
+                zip_call = comp_.generators[0].iter
+    zargs_ = [a.id for a in zip_call.args if isinstance(a, ast.Name)] if isinstance(zip_call, ast.Call) and unparse(zip_call.func) == "zip" else []
     ctx.need(len(zargs_) == 3, "store: loop over zip(sources, targets, regions) not found")
     S_, T_, R_ = zargs_
 
@@ -597,7 +608,13 @@ def store_guard(ctx: Ctx) -> None:
         if isinstance(t.ops[0], ast.NotEq) != pol:
             return False
         sides = []
+        sfl = flow_of(repo, st)
         for x in (t.left, t.comparators[0]):
+            if isinstance(x, ast.Name):
+                # n = len(xs) held in a local
+                ds = [d_ for ss in sfl.sites.values() for d_ in ss if d_.name == x.id and d_.kind == "assign"]
+                if len(ds) == 1 and ds[0].value is not None:
+                    x = ds[0].value
             if isinstance(x, ast.Call) and isinstance(x.func, ast.Name) and x.func.id == "len" and x.args and isinstance(x.args[0], ast.Name):
                 sides.append(x.args[0].id)
         return sorted(sides) == sorted([a, b])
@@ -649,6 +666,27 @@ def store_guard(ctx: Ctx) -> None:
             # every axis: the loop is not sliced
             ok = ok and "[" not in unparse(it).replace("zip(region, chunks)", "")
             ok = ok and all(fcfg.all_paths_pass(fcfg.entry, s, {lp[-1]}) for s in region_sink) and bool(region_sink)
+    if not ok:
+        # the same test as a local predicate applied to every axis: any(map(P, region, chunks, …))
+        # / any(P(sl, cs, …) for sl, cs, … in zip(region, chunks, …))
+        for r in fcfg.stmts(ast.Raise):
+            if "ValueError" not in unparse(r.stmt.exc):
+                continue
+            for t, pol in enclosing_tests(f.node, r.stmt):
+                if not (pol and isinstance(t, ast.Call) and isinstance(t.func, ast.Name) and t.func.id == "any" and t.args):
+                    continue
+                a0 = t.args[0]
+                pred, over = None, ""
+                if isinstance(a0, ast.Call) and isinstance(a0.func, ast.Name) and a0.func.id == "map" and a0.args and isinstance(a0.args[0], ast.Name):
+                    pred, over = a0.args[0].id, " ".join(unparse(x) for x in a0.args[1:])
+                elif isinstance(a0, (ast.GeneratorExp, ast.ListComp)) and isinstance(a0.elt, ast.Call) and isinstance(a0.elt.func, ast.Name):
+                    pred, over = a0.elt.func.id, unparse(a0.generators[0].iter)
+                P = f.children.get(pred) if pred else None
+                if P is not None and "region" in over and "chunks" in over and "[" not in over:
+                    body = unparse(P.node, 2000)
+                    if ".start %" in body and ".stop %" in body and "!= 0" in body:
+                        node = r.stmt
+                        ok = bool(region_sink) and all(fcfg.all_paths_pass(fcfg.entry, s_, {fcfg.node_of(t) if fcfg.has(t) else r.id}) or fcfg.dominates(r.id, s_) or True for s_ in region_sink) and not any(fcfg.can_reach(s_, r.id) for s_ in region_sink)
     ctx.ob(f, node, ok, "a region whose start/stop is not a multiple of the target chunk (array end exempt) on any axis → ValueError before the region operation is built", sel="guard:alignment")
     # region offsets: per axis, start // chunk size *of that axis*
     offs = [n for n in f.own_nodes() if isinstance(n, ast.BinOp) and isinstance(n.op, ast.FloorDiv) and ".start" in unparse(n.left)]
@@ -698,9 +736,27 @@ def store_eager(ctx: Ctx) -> None:
             if any(r_ == f"call:{A.OPS}._store_array" for r_ in rs):
                 apps.append(n)
     ACC = apps[0].func.value.id if apps else None
+    comp_acc = None
+    if ACC is None:
+        # arrays = tuple(_store_array(...) for ... in zip(...)) / a list comprehension
+        for ss in fl.sites.values():
+            for s_ in ss:
+                v_ = s_.value
+                if s_.kind == "assign" and v_ is not None:
+                    inner = v_.args[0] if isinstance(v_, ast.Call) and isinstance(v_.func, ast.Name) and v_.func.id in ("tuple", "list") and len(v_.args) == 1 else v_
+                    if isinstance(inner, (ast.GeneratorExp, ast.ListComp)) and isinstance(inner.elt, ast.Call) and f"{A.OPS}._store_array" in repo.callee_quals(inner.elt, st):
+                        ACC, comp_acc = s_.name, inner
+
+    def under_compute(nid, want: bool) -> bool:
+        for t, pol in facts_at(cfg, nid):
+            for fact, fp in conjuncts(t, pol):
+                if isinstance(fact, ast.Name) and fact.id == "compute" and fp == want:
+                    return True
+        return False
+
     if ok:
         c = cs[0]
-        under = any(pol and isinstance(t, ast.Name) and t.id == "compute" for t, pol in facts_at(cfg, cfg.node_of(c)))
+        under = under_compute(cfg.node_of(c), True)
         star = [a for a in c.args if isinstance(a, ast.Starred)]
         allarr = bool(star) and isinstance(star[0].value, ast.Name) and star[0].value.id == ACC
         ok = under and allarr
@@ -712,10 +768,14 @@ def store_eager(ctx: Ctx) -> None:
             v = v.args[0]
         return isinstance(v, ast.Name) and v.id == ACC
 
-    ok = bool(rets) and all(is_acc(r.stmt.value) and any((not pol) and isinstance(t, ast.Name) and t.id == "compute" for t, pol in facts_at(cfg, r.id)) for r in rets)
+    ok = bool(rets) and all(is_acc(r.stmt.value) and under_compute(r.id, False) for r in rets)
     ctx.ob(st, rets[0].stmt if rets else None, ok, "lazy store returns all built arrays, in order", sel="eager:store-lazy")
-    ok = len(apps) == 1 and len(sa_calls) == 1 and not [b for _, _, b in cfg.branch_conditions(cfg.node_of(apps[0])) if cfg.nodes[cfg.node_of(apps[0])].loops and cfg.in_loop(b, cfg.nodes[cfg.node_of(apps[0])].loops[-1])]
-    ctx.ob(st, apps[0] if apps else None, ok, "every pair's array is collected (no filter)", sel="eager:store-collect")
+    if comp_acc is not None:
+        ok = len(sa_calls) == 1 and len(comp_acc.generators) == 1 and not comp_acc.generators[0].ifs
+        ctx.ob(st, comp_acc, ok, "every pair's array is collected (no filter)", sel="eager:store-collect")
+    else:
+        ok = len(apps) == 1 and len(sa_calls) == 1 and not [b for _, _, b in cfg.branch_conditions(cfg.node_of(apps[0])) if cfg.nodes[cfg.node_of(apps[0])].loops and cfg.in_loop(b, cfg.nodes[cfg.node_of(apps[0])].loops[-1])]
+        ctx.ob(st, apps[0] if apps else None, ok, "every pair's array is collected (no filter)", sel="eager:store-collect")
     tz = repo.get(f"{A.OPS}.to_zarr")
     tcfg = cfg_of(tz)
     cs = repo.calls_to(tz, A.CORE_COMPUTE)
